@@ -323,4 +323,20 @@ example : Generated.Merge.interfaceInitializeEffects 0 = ["configs := [config]"]
     Generated.Merge.interfaceInitializeEntryEffects false = ["merge config into entry"] ∧
     Generated.Merge.interfaceInitializeEntryEffects true = ["entry := {}", "store entry", "merge config into entry"] := by decide
 
+
+/-- **`PackageConfig.Initialize` is the translated source**: for every listed interface – written with a value, as
+`Name:` (null), with or without a `config` of its own – running the effects of the translated loop body (create what is
+missing, merge the package's config into the interface's, initialise the interface) gives the model's `initIface` -/
+theorem package_initialize_is_the_translated_source (ft : FieldTable) (pkgCfg : Cfg) (i : Option IfaceCfg) :
+    runPkgEntry ft pkgCfg i
+        (Generated.Merge.packageInitializeEntryEffects i.isNone (configIsNilAtTest i)) =
+      some (initIface ft pkgCfg i) :=
+  initIface_translated ft pkgCfg i
+
+/-- the translated loop body on a null interface and on one that has no `config`: what is missing is created first -/
+example : Generated.Merge.packageInitializeEntryEffects true false =
+      ["iface := new", "store iface", "merge package config into iface.config", "initialize iface"] ∧
+    Generated.Merge.packageInitializeEntryEffects false true =
+      ["iface.config := {}", "merge package config into iface.config", "initialize iface"] := by decide
+
 end Mockery.C08
